@@ -82,4 +82,12 @@ func registerProps() {
 		Stub:   []string{"transferFn (simulated transfer that ends when the script says so or when its context is cancelled)", "signaling connection (nil: TransferStart/TransferQueued messages are not sent)", "event source (script instead of the WebSocket read loop)"},
 		Assume: []string{"events reach the sender from one event-loop goroutine, as in RunSnapshotSender; concurrency comes from the transfer goroutines"},
 	})
+	reg(&propDef{
+		ID: "C08", Pkg: "internal/app", Level: "fault_enumeration",
+		Quick: 12000, Thorough: 600000, QuickWall: 4 * time.Minute, ThorWall: 30 * time.Minute,
+		Rule:   "each run = one scenario: honest pair on one session (codes equal / different / empty / prefix / case variant), optionally with one alteration of one authentication message - the 2 x (400 single-bit flips + 50 truncations) alterations are walked systematically by run index, so 900 consecutive direct-topology runs cover all of them; or an attacker without the code relaying / replaying (proofs captured from an earlier session with the same code) / reflecting between two sessions; or a rogue dialer or rogue listener that follows the protocol with a drawn code (including the right one, as positive control), replays, reflects, swaps roles, sends random proofs or stays silent; seeded segmentation (1 byte ... whole message) and schedule; distinct by decision-log hash",
+		Real:   []string{"internal/app.authenticateTransport, authAsSender, authAsReceiver, deriveAuthKey, message codec (instrumented copy of the current working tree)"},
+		Stub:   []string{"TLS exporter: SimNet gives both ends of a simulated session the same random keying material and different sessions different material (real TLS exporter values are not exercised here)", "attackers: scripts", "runICEQUICTransfer / runTransfer / acceptExtraConns call sites (not simulated: the order of authentication and transfer there is not evidence of this check)"},
+		Assume: []string{"HMAC-SHA256 and the TLS exporter are not attacked; the check is about the protocol logic around them"},
+	})
 }
